@@ -805,7 +805,7 @@ func (fr *Frame) checkInvariant(li *loopInfo, st *State, g string, env map[*ssa.
 	vc := fr.vc
 	if li.spec != nil {
 		for k, c := range li.spec.Invariants {
-			t := fr.evalClause(c, fr.invEnv(li, st, env), "loop invariant")
+			t := fr.evalGoal(c, fr.invEnv(li, st, env), "loop invariant")
 			label := c.Label
 			if label == "" {
 				label = fmt.Sprint(k)
